@@ -45,6 +45,15 @@ fn nest_func(d: usize) -> String {
     format!("{}\n", s)
 }
 
+fn nest_pyramid(d: usize) -> String {
+    // on(e, function() on(e, function() ... end) end)
+    let mut s = String::from("done()");
+    for _ in 0..d {
+        s = format!("on(e, function() {} end)", s);
+    }
+    format!("{}\n", s)
+}
+
 fn extreme_configs() -> Vec<Config> {
     let mut v = Vec::new();
     for w in [1usize, 2, 80, usize::MAX] {
@@ -60,12 +69,19 @@ fn extreme_configs() -> Vec<Config> {
 }
 
 pub fn run(tier: &str, seed: u64) -> Sink {
+    let tier = tier.to_string();
+    // deep nesting needs a deep stack
+    std::thread::Builder::new().stack_size(512 << 20).spawn(move || run_(&tier, seed)).unwrap().join().unwrap()
+}
+
+fn run_(tier: &str, seed: u64) -> Sink {
     let thorough = tier == "thorough";
     let mut sink = Sink::default();
     // ---- ring 2: cost of nested inputs (counters are per thread; run on this thread)
     let maxd = if thorough { 13 } else { 11 };
-    for (name, gen) in [("chain", nest_chain as fn(usize) -> String), ("call", nest_call), ("table", nest_table), ("paren", nest_paren), ("func", nest_func)] {
+    for (name, gen) in [("chain", nest_chain as fn(usize) -> String), ("call", nest_call), ("table", nest_table), ("paren", nest_paren), ("func", nest_func), ("pyramid", nest_pyramid)] {
         let mut slow_reported = false;
+        let mut history: Vec<u64> = Vec::new();
         for d in 0..=maxd {
             if name == "func" && d > 6 {
                 break; // stack depth of deeply nested function bodies is a build-profile artefact
@@ -75,7 +91,8 @@ pub fn run(tier: &str, seed: u64) -> Sink {
             let t0 = Instant::now();
             let res = fmt(&src, Config::default(), None, false);
             let ms = t0.elapsed().as_millis();
-            let (calls, _exprs) = stylua_lib::verif::counters();
+            let (calls, exprs) = stylua_lib::verif::counters();
+            let calls = calls.max(exprs / 4);
             if let Outcome::Panic(p) = &res {
                 sink.v("C07", &format!("panic:nest-{}", name), json!({"input": src, "panic": p}));
             }
@@ -83,8 +100,12 @@ pub fn run(tier: &str, seed: u64) -> Sink {
                 sink.q(format!("cost {} {}", name, d), format!("{}", calls));
             }
             // time out of proportion: more than 2 s for < 300 bytes
-            // deterministic form of "time out of proportion": formatter invocations per input byte
-            if calls as usize > 100 * src.len() && !slow_reported {
+            history.push(calls.max(1));
+            // deterministic form of "time out of proportion": the number of formatter entries doubles
+            // (factor >= 1.8) with each of the last three nesting levels
+            let k = history.len();
+            let exponential = k >= 7 && (k - 3..k).all(|i| history[i] as f64 >= 1.8 * history[i - 1] as f64);
+            if exponential && !slow_reported {
                 slow_reported = true;
                 sink.v("C07", &format!("superlinear:nest-{}", name), json!({"input": src, "depth": d, "bytes": src.len(), "ms": ms as u64, "format_function_call_invocations": calls}));
             }
